@@ -11,10 +11,20 @@
 From TT Require Import Lib.Base Model.Tfr.
 
 (* ---------- what travels through the queue, what happens on the shared objects ---------- *)
+(* the timestamp of a stream event as it travels: none at all | assigned by TimestampingStreamResult
+   (datetime.now(), value not compared) | the one the worker supplied *)
+Inductive tstamp := TNo | TNow | TOwn (n : nat).
+(* how a stream-native worker spells the timestamp argument of result.status(): keyword left out |
+   timestamp=None passed explicitly (replaying a recorded event dict as keyword arguments) | its own datetime *)
+Inductive tsarg := TsOmit | TsNone | TsAt (n : nat).
+(* TimestampingStreamResult.status (real.py): pop the keyword, stamp when it is missing or None *)
+Definition stamp (a : tsarg) : tstamp := match a with TsAt n => TOwn n | _ => TNow end.
+
 Inductive qitem :=
 | QToken (w : nat)                                   (* classic: the finished sub-suite *)
 | QStart (w : nat) | QStop (w : nat)                 (* stream: startTestRun / stopTestRun of worker w's StreamToQueue *)
-| QStatus (w : nat) (id st : nat) (own : option nat). (* stream: a status event of worker w: test id, status, its own route code *)
+| QStatus (w : nat) (id st : nat) (own : option nat) (ts : tstamp).
+                                 (* stream: a status event of worker w: test id, status, its own route code, its timestamp *)
 
 Inductive cev :=
 | CG (e : gev)                   (* classic: semaphore / caller's-result events, as in Tfr.v *)
@@ -23,8 +33,8 @@ Inductive cev :=
 | CGet (q : qitem)
 | CGetIntr                       (* main: an interrupt arrives in queue.get() *)
 | CJoin (w : nat)
-| CStatus (w : nat) (id st : nat) (own : option nat) (ts : bool) (raised : bool).
-                                 (* stream: main calls result.status(route = w[/own], timestamp present?) *)
+| CStatus (w : nat) (id st : nat) (own : option nat) (ts : tstamp) (raised : bool).
+                                 (* stream: main calls result.status(route = w[/own], timestamp) *)
 
 Definition br_id := 999.           (* the test id 'broken-runner' / "broken-runner-'<route>'" *)
 Definition st_inprogress := 0.
@@ -235,7 +245,7 @@ Definition call_done (c : cconf) : bool := cmain_done c && forallb cw_done (k_wo
 (* ====================================================================================== *)
 (* ConcurrentStreamTestSuite                                                                *)
 (* ====================================================================================== *)
-Inductive sitem := SEv (id st : nat) (own : option nat) | SRaise.
+Inductive sitem := SEv (id st : nat) (own : option nat) (a : tsarg) | SRaise.
 
 Record sinput := {
   si_suites : list (list sitem);   (* per sub-suite: the status events its run(result) emits (SRaise = run() raises there) *)
@@ -250,8 +260,8 @@ Record sinput := {
 Fixpoint emits (w : nat) (base : bool) (s : list sitem) : list qitem :=
   match s with
   | [] => []
-  | SEv id st own :: r => QStatus w id st own :: emits w base r
-  | SRaise :: _ => if base then [] else [QStatus w br_id st_inprogress None; QStatus w br_id st_fail None]
+  | SEv id st own a :: r => QStatus w id st own (stamp a) :: emits w base r
+  | SRaise :: _ => if base then [] else [QStatus w br_id st_inprogress None TNow; QStatus w br_id st_fail None TNow]
   end.
 Definition worker_puts (w : nat) (base : bool) (s : list sitem) : list qitem :=
   QStart w :: emits w base s ++ [QStop w].
@@ -315,7 +325,7 @@ Definition sstep_main (i : sinput) (c : sconf) : option sconf :=
            | q :: rest =>
                Some {| s_log := slog c 0 (CGet q); s_queue := rest;
                        s_main := match q with
-                                 | QStatus _ _ _ _ => SMStatus q
+                                 | QStatus _ _ _ _ _ => SMStatus q
                                  | QStop w => SMJoin w
                                  | _ => SMGet
                                  end;
@@ -325,9 +335,9 @@ Definition sstep_main (i : sinput) (c : sconf) : option sconf :=
            end
   | SMStatus q =>
       match q with
-      | QStatus w id st own =>
+      | QStatus w id st own ts =>
           let b := memb (s_mcalls c) (si_main_faults i) in
-          let c' := {| s_log := slog c 0 (CStatus w id st own true b); s_queue := s_queue c; s_main := SMGet;
+          let c' := {| s_log := slog c 0 (CStatus w id st own ts b); s_queue := s_queue c; s_main := SMGet;
                        s_unreaped := s_unreaped c; s_workers := s_workers c; s_gets := s_gets c;
                        s_mcalls := S (s_mcalls c); s_raised := s_raised c; s_stops := s_stops c; s_live := s_live c |} in
           Some (if b then sabort c' else c')
